@@ -120,7 +120,13 @@ CheckNext ==
 CheckInv == (bad # 0 /\ bad = l * 1000000 + j) => PrintT(<<"BAD", l, j>>)
 Complete == (l = Len(Obs) + 1) => PrintT(<<"CASES-COMPLETE", Len(Obs)>>)
 
-(* the arithmetic statement for every size (design level) *)
+(* conformance of the transcription: the shards the real dispatcher created for size S are Zones(S) shards of PerShard(S) entries
+   (reported as drift, never as a violation: another layout that keeps the bound would be just as good) *)
+ArithMatches(o) ==
+  o.case.via = "reload" \/ (o.nshards = Zones(o.case.size) /\ \A i \in DOMAIN o.limits : o.limits[i] = PerShard(o.case.size))
+ArithDrift == (l <= Len(Obs) /\ j = 0 /\ ~ArithMatches(Obs[l])) => PrintT(<<"ARITH-DRIFT", l>>)
+
+(* the arithmetic statement for every size (design level); LRUArithProof.tla has it for all integers (Apalache) *)
 MaxArith == 200000
 ArithInv == (l = 1 /\ j = 0) => \A S \in 1..MaxArith : ArithOK(S)
 =============================================================================
